@@ -2,6 +2,7 @@
 
 Request lines (harness: harness/src/ops_classgroup.rs, model: lean/Ymq/Drv/ClassGroup.lean)
 
+  (cg_h, cg_full, cg_poly accept an optional last argument 0|1: force the double large prime variation)
   cg_h D threads                 real classgroup(): `h inv,inv,..`                                  (O)
   cg_full D threads              real classgroup() with an output directory: h, invariants, generator
                                  coordinates, every line of relations.sieve, the classnumber file    (O + model follow-ups)
@@ -656,6 +657,22 @@ def history_cases(rng, n):
                 rels.append(show_rel(fs, None, (rng.choice(pool), sg())))
         yield Case(f"cg_crel_history {maxlarge} {';'.join(rels)}")
     yield Case("cg_crel_history 1000 -")
+    # deep recursion of update_tree: a chain of doubles, attached to the root by the last relation (both orders),
+    # then cycles of every length through it; stars
+    for L in (3, 10, 60, 250):
+        ps = [101 + 2 * i for i in range(L)]
+        rng.shuffle(ps)
+        chain = [show_rel([(2, 1)], (ps[i], 1), (ps[i + 1], -1)) for i in range(L - 1)]
+        rng.shuffle(chain)
+        for root in (ps[0], ps[L // 2], ps[-1]):
+            hist = chain + [show_rel([(3, 1)], (root, 1), None)]
+            hist += [show_rel([(5, 1)], (rng.choice(ps), -1), None) for _ in range(4)]
+            hist += [show_rel([(7, 1)], (rng.choice(ps), 1), (rng.choice(ps[:L // 2]), 1)) for _ in range(3)
+                     ]
+            hist = [h for h in hist if not (h.count("/") == 2 and h.split("/")[1].split("^")[0] == h.split("/")[2].split("^")[0])]
+            yield Case(f"cg_crel_history 100000 {';'.join(hist)}")
+        star = [show_rel([(2, 1)], (ps[0], 1), (q, 1)) for q in ps[1:]] + [show_rel([], (ps[0], 2), None)]
+        yield Case(f"cg_crel_history 100000 {';'.join(star)}")
 
 
 def fundamental_range(lo, hi):
@@ -715,6 +732,17 @@ def cases(tier, rng, extended=False):
                 for threads in ((0, 3) if cnt >= 4 else ((0, 3)[(j + rep) % 2],)):
                     D = random_fundamental(rng, bits, cls) if bits > 8 else {1: -23, 5: -83, 8: -56, 12: -84}[cls]
                     yield Case(f"cg_full {D} {threads}", k=False, timeout=240)
+    # ---- the same with the double large prime variation forced (Preferences::use_double, `ymcls --use-double true`):
+    #      relations with two large primes, try_factor64, add_path(p, q)
+    for i in range(16 * scale):
+        bits = rng.choice([40, 48, 56, 64, 80, 100, 128])
+        D = random_fundamental(rng, bits, [1, 5, 8, 12][i % 4])
+        yield Case(f"cg_full {D} {(0, 3)[i % 2]} 1", k=False, timeout=240)
+    for i in range(24 * scale):
+        bits = rng.choice([34, 40, 50, 64, 72, 90, 110, 128])
+        D = random_fundamental(rng, bits, [1, 5, 8, 12][i % 4])
+        for first in sorted(rng.sample(range(0, 24), 2)):
+            yield Case(f"cg_poly {D} {first} 1 25 1", k=False, timeout=120)
     # ---- the real sieve polynomial by polynomial (hook): sign decision replayed by the model
     for i in range(50 * scale):
         bits = rng.choice([6, 12, 20, 30, 34, 40, 50, 64, 72, 90, 110, 128])
@@ -771,7 +799,7 @@ def _check_h(D, h, invs, tag=""):
     if ref is not None and n < 3000000 and h <= 400:
         canon = canonical_invariants(invs)
         odd_noncyclic = any(canon.count(q) > 1 or any(q2 != q and q2 % 2 and math.gcd(q, q2) > 1 for q2 in canon) for q in canon if q % 2)
-        if odd_noncyclic or n % 17 == 0 or h <= 40:
+        if odd_noncyclic or (n % 17 == 0 and n < 150000) or n % 331 == 0 or h <= 40:
             want = _GT_CACHE.get(D)
             if want is None:
                 want = _GT_CACHE[D] = group_type(D)
@@ -797,6 +825,7 @@ def _check_h(D, h, invs, tag=""):
 
 _GT_CACHE = {}
 _EST_PRIMES = []
+_RATE = {"n": 0, "bad": 0}
 
 
 def analytic_estimate(D):
@@ -879,8 +908,16 @@ def oracle(case, ans):
         return None
     if op == "cg_crel_history":
         return oracle_history(case, ans)
+    if op in ("cg_h", "cg_full"):
+        _RATE["n"] += 1
     if ans in ("panic", "abort", "hang", "?"):
-        # C18 speaks about returned results; a refusal is not a wrong result (counted in the distribution)
+        # C18 speaks about returned results; a refusal is not a wrong result (counted in the distribution).
+        # Vacuity guard: when most computations are refused the check would pass without checking anything.
+        if op in ("cg_h", "cg_full"):
+            _RATE["bad"] += 1
+            if _RATE["n"] >= 200 and 2 * _RATE["bad"] > _RATE["n"]:
+                return (f"vacuity guard: classgroup() gave no result for {_RATE['bad']} of the first {_RATE['n']} discriminants "
+                        f"({ans} on D = {a[0]}); the property is about returned results and would hold vacuously")
         return None if ans in ("panic", "hang") else f"no answer ({ans})"
     D = int(a[0])
     if op == "cg_fb_bplus":
@@ -1029,6 +1066,23 @@ def oracle_history(case, ans):
         for x, y in zip(v, v[1:]):
             if (min(x, y), max(x, y)) not in edges:
                 return f"path of {k} uses {x}-{y} which is not an input edge"
+    # usefulness: in the graph of the emitted relations every large prime is connected to the root 1
+    # (a cycle is emitted together with both tree paths that close it)
+    par2 = {}
+
+    def find2(x):
+        par2.setdefault(x, x)
+        while par2[x] != x:
+            par2[x] = par2[par2[x]]
+            x = par2[x]
+        return x
+    for s_ in emitted:
+        fs, l1, l2 = parse_rel(s_)
+        if l1 is not None:
+            par2[find2(l1[0])] = find2(l2[0] if l2 is not None else 1)
+    for v in list(par2):
+        if find2(v) != find2(1):
+            return f"large prime {v} of an emitted relation is not connected to the root through emitted relations"
     # written lines = emitted relations in the documented format
     lines = [] if parts[5] == "lines=-" else parts[5][6:].split(";")
     want = [",".join(map(str, _rel_entries(*parse_rel(s)))) or "e" for s in emitted]
@@ -1164,7 +1218,9 @@ def klass(case, ans):
     D = int(a[0])
     base = f"{op}/{dclass(D)}/{sizeclass(D)}"
     if op in ("cg_h", "cg_full"):
-        base += f"/t{a[1]}"
+        base += f"/t{a[1]}" + ("/dbl" if len(a) > 2 and a[2] == "1" else "")
+    if op == "cg_poly" and len(a) > 4 and a[4] == "1":
+        base += "/dbl"
     if op == "cg_estimate" and not bad:
         ref = reference_h(D)
         lo, hi = (int(x) for x in ans.split(" "))
@@ -1173,7 +1229,8 @@ def klass(case, ans):
     if op == "cg_poly" and not bad:
         tr = parse_poly(ans)
         nl = sum(1 for pol in tr["polys"] for r in pol["rels"] if r[1])
-        base += "/large" if nl else "/nolarge"
+        n2 = sum(1 for pol in tr["polys"] for r in pol["rels"] if r[2])
+        base += "/large2" if n2 else ("/large" if nl else "/nolarge")
     return base + bad
 
 
@@ -1186,9 +1243,9 @@ def finding_key(case, ans, profile):
 
 
 THEOREMS = ["Ymq.C18." + t for t in (
-    "b_plus_unique bPlus_spec_odd bPlus_spec_even sign_total sign_exclusive large_sign_consistent poly_factors_total "
-    "emitted_subset_inputs emit_hom emit_hom_map relLine_val reduced_enum_sound reduced_enum_complete reduced_enum_nodup reduced_enum "
-    "invariants_multiply invariantsOk_spec").split()]
+    "b_plus_unique bPlus_spec_odd bPlus_spec_even sign_total sign_exclusive large_sign_consistent poly_factors_total relation_no_panic "
+    "emitted_subset_inputs complete_relations_emitted store_total emit_hom emit_hom_map relLine_val "
+    "reduced_enum_sound reduced_enum_complete reduced_enum_nodup reduced_enum invariants_multiply invariantsOk_spec").split()]
 HYPOTHESES = [
     "classNumber_is_reduced_count (definition, not proved): the class number h(D) of the imaginary quadratic order of discriminant D "
     "is the number of reduced primitive positive definite forms of discriminant D (Gauss); `classNumber D` is DEFINED as that count, "
